@@ -1,6 +1,7 @@
 package main
 
 import (
+	"go/types"
 	"strings"
 
 	"golang.org/x/tools/go/ssa"
@@ -22,6 +23,7 @@ func runC15(c *Ctx) {
 	borrow(c, "O1", "C06", "O2", "victim.Queue == preemptor.Queue", "preemption across queues is not ordered by priority (priorities are per queue): it would undo what reclaim decided")
 	borrow(c, "O1", "C06", "O2", "victim.UID != preemptor.UID", "a workload evicting its own pods to place its pending ones repeats every cycle")
 	// reclaim: asymmetric share conditions
+	borrow(c, "O10", "C16", "O3", "fallback is creation time ascending, then UID ascending", "two workloads that no plugin separates and that were created in the same second must still be ordered the same way by every heap: the simulation of an eviction replays the order of the next allocate, and an order that follows map iteration lets the victim be placed first in one and last in the other, so the same pod is evicted again and again")
 	borrow(c, "O2", "C07", "O2", "stops at the first level where they differ", "the share conditions order the eviction only if they are evaluated on the queues at the level where the two hierarchies diverge")
 	borrow(c, "O2", "C07", "O3", "Reclaimable: ", "a strategy that takes from a queue at or below its share lets that queue reclaim the same resources back")
 	borrow(c, "O2", "C07", "O3", "the request is added before comparing", "the reclaimer must stay within the quota it reclaims for, counting what it is about to receive")
@@ -39,6 +41,7 @@ func runC15(c *Ctx) {
 	borrow(c, "O5", "C06", "O5", "", "evictions and the preemptor's placement are one statement: no eviction is kept when the placement is undone")
 	borrow(c, "O5", "C13", "O5", "a failed eviction does not end the commit", "victims evicted for real while the nomination they were evicted for is dropped are evicted again for the same workload in the next cycle")
 	runC15Own(c)
+	runC15ShareIndependentOfAllocation(c)
 	runC15ActionWiring(c)
 }
 
@@ -184,4 +187,115 @@ func runC15ActionWiring(c *Ctx) {
 	}
 	c.Floor("O8", "CONST pending-workload orders", n8, 4)
 	c.Floor("O9", "CONST queue-depth lookups", n9, 4)
+}
+
+// runC15ShareIndependentOfAllocation (O11): the fair shares are computed once per cycle and are the yardstick of the
+// reclaim validators and of the queue order; the no-livelock argument needs them to be the same in the cycle that
+// simulates an eviction and in the cycle that allocates after it. They must therefore not depend on what the queues
+// currently hold: in the division package the current allocation (ResourceShare.Allocated / AllocatedNotPreemptible,
+// directly or through a function that reads them) only flows into logging and metrics — never into a comparison, an
+// arithmetic expression, a stored value or a result. (A tie-break "the queue that holds less gets the left-over unit"
+// flips the shares after every reclaim and the two queues take the unit from each other for ever.)
+func runC15ShareIndependentOfAllocation(c *Ctx) {
+	const pkgDiv = "pkg/scheduler/plugins/proportion/resource_division"
+	isAllocField := func(fa *ssa.FieldAddr) bool {
+		st, ok := fa.X.Type().Underlying().(*types.Pointer).Elem().Underlying().(*types.Struct)
+		if !ok {
+			return false
+		}
+		name := st.Field(fa.Field).Name()
+		return strings.HasPrefix(name, "Allocated") && strings.HasSuffix(typeKey(fa.X.Type()), "resource_share.ResourceShare")
+	}
+	// functions of the proportion plugin that (transitively) return something read from an Allocated field
+	readsAlloc := map[*ssa.Function]bool{}
+	for changed, round := true, 0; changed && round < 4; round++ {
+		changed = false
+		for _, fn := range c.P.FuncsIn("pkg/scheduler/plugins/proportion/resource_share") {
+			if readsAlloc[fn] || fn.Signature.Results().Len() == 0 {
+				continue
+			}
+			for _, b := range fn.Blocks {
+				for _, in := range b.Instrs {
+					if fa, ok := in.(*ssa.FieldAddr); ok && isAllocField(fa) && !strings.HasPrefix(fn.Name(), "Clone") {
+						readsAlloc[fn] = true
+					}
+					if cc, ok := in.(ssa.CallInstruction); ok && cc.Common().StaticCallee() != nil && readsAlloc[cc.Common().StaticCallee()] {
+						readsAlloc[fn] = true
+					}
+				}
+			}
+			if readsAlloc[fn] {
+				changed = true
+			}
+		}
+	}
+	sinkOK := func(cal *ssa.Function) bool {
+		if cal == nil {
+			return false
+		}
+		pk := funcPkgPath(cal)
+		return strings.HasSuffix(pk, "/log") || strings.HasSuffix(pk, "/metrics") || pk == "fmt" || cal.Name() == "HumanizeResource"
+	}
+	nFuncs, nReads := 0, 0
+	for _, fn := range c.P.FuncsIn(pkgDiv) {
+		nFuncs++
+		for _, b := range fn.Blocks {
+			for _, in := range b.Instrs {
+				var src ssa.Value
+				switch x := in.(type) {
+				case *ssa.FieldAddr:
+					if isAllocField(x) {
+						src = x
+					}
+				case *ssa.Call:
+					if cal := x.Call.StaticCallee(); cal != nil && readsAlloc[cal] {
+						src = x
+					}
+				}
+				if src == nil {
+					continue
+				}
+				nReads++
+				var bad ssa.Instruction
+				seen := map[ssa.Value]bool{}
+				var follow func(v ssa.Value)
+				follow = func(v ssa.Value) {
+					if seen[v] || v.Referrers() == nil {
+						return
+					}
+					seen[v] = true
+					for _, r := range *v.Referrers() {
+						switch x := r.(type) {
+						case *ssa.UnOp, *ssa.Convert, *ssa.ChangeType, *ssa.MakeInterface, *ssa.Phi, *ssa.Extract:
+							follow(x.(ssa.Value))
+						case *ssa.Call:
+							cal := x.Call.StaticCallee()
+							if !sinkOK(cal) {
+								bad = x
+							} else if cal.Name() == "HumanizeResource" {
+								follow(x)
+							}
+						case *ssa.Store:
+							// only into the argument array of a variadic logging call
+							if _, isIdx := x.Addr.(*ssa.IndexAddr); !isIdx || x.Val != v {
+								bad = x
+							}
+						case *ssa.DebugRef:
+						default:
+							bad = r
+						}
+					}
+				}
+				follow(src)
+				pos := instrPos(in)
+				if bad != nil {
+					pos = instrPos(bad)
+				}
+				c.Check(bad == nil, "O11", "DEP", funcKey(fn)+": the current allocation is only reported, it does not enter the division of shares", pos, "flows into logging / metrics only",
+					"the division of fair shares reads what a queue currently holds and uses it (comparison, arithmetic, stored value or result): the shares then change with every reclaim and allocation, the cycle that simulates an eviction and the cycle that allocates after it disagree, and two queues can take the same unit from each other for ever")
+			}
+		}
+	}
+	c.Floor("O11", "DEP functions of the share division", nFuncs, 10)
+	c.Floor("O11", "DEP reads of the current allocation in the share division", nReads, 3)
 }
